@@ -99,14 +99,14 @@ class SpecMixin(object):
       k = base.ty.kind
       if k == 'dict':
         vt = base.ty.args[1] if len(base.ty.args) > 1 else ANY
-        return from_u(cx.heap.val(base.t, to_u(idx, cx)), vt, cx)
+        return from_u(heap_of(base, cx).val(base.t, to_u(idx, cx)), vt, cx)
       if k in ('list', 'vtuple'):
         if not isinstance(idx, VInt):
           raise SpecError('list index must be int')
         i = idx.t
         if z3.is_int_value(i) and i.as_long() < 0:
-          i = cx.heap.len(base.t) + i
-        return from_u(cx.heap.item(base.t, i), base.ty.elem, cx)
+          i = heap_of(base, cx).len(base.t) + i
+        return from_u(heap_of(base, cx).item(base.t, i), base.ty.elem, cx)
       if k == 'obj':
         path = '%s.__getitem__' % base.ty.name
         rt = self.pure_ret_type(path)
@@ -333,11 +333,11 @@ class SpecMixin(object):
     if isinstance(base, VRef):
       k = base.ty.kind
       if k == 'dict' and meth == 'keys':
-        return VSetExpr(lambda e: cx.heap.dom(base.t, e), Ty('set', (base.ty.args[0],)))
+        return VSetExpr(lambda e: heap_of(base, cx).dom(base.t, e), Ty('set', (base.ty.args[0],)))
       if k == 'dict' and meth == 'get' and len(args) == 2:
         vt = base.ty.args[1] if len(base.ty.args) > 1 else ANY
         ku = to_u(args[0], cx)
-        return ite_val(cx.heap.dom(base.t, ku), from_u(cx.heap.val(base.t, ku), vt, cx), args[1], cx)
+        return ite_val(heap_of(base, cx).dom(base.t, ku), from_u(heap_of(base, cx).val(base.t, ku), vt, cx), args[1], cx)
       if k == 'obj' or k == 'any':
         cls = base.ty.name if k == 'obj' else None
         q = self.world.find_method(cls, meth) if cls else None
@@ -443,7 +443,10 @@ class SpecMixin(object):
   def spec_fn_old(self, n, cx):
     if cx.old is None:
       raise SpecError('old() outside a two-state context')
-    return self.sv(n.args[0], cx.old)
+    v = self.sv(n.args[0], cx.old)
+    if isinstance(v, VRef) and not isinstance(v, VOldRef) and v.ty.kind in ('set', 'dict', 'list', 'vtuple'):
+      return VOldRef(v.t, v.ty, cx.old.heap)
+    return v
 
   def spec_fn_seteq(self, n, cx):
     a, b = [self.sv(x, cx) for x in n.args]
@@ -512,7 +515,7 @@ class SpecMixin(object):
 
   def spec_fn_keys(self, n, cx):
     d = self.sv(n.args[0], cx)
-    return VSetExpr(lambda e: cx.heap.dom(d.t, e))
+    return VSetExpr(lambda e: heap_of(d, cx).dom(d.t, e))
 
   def spec_fn_truthy(self, n, cx):
     return VBool(truthy(self.sv(n.args[0], cx), cx))
@@ -597,9 +600,9 @@ class SpecMixin(object):
       return VInt(z3.Length(v.t))
     if isinstance(v, VRef):
       if v.ty.kind in ('list', 'vtuple'):
-        return VInt(cx.heap.len(v.t))
+        return VInt(heap_of(v, cx).len(v.t))
       if v.ty.kind in ('set', 'dict'):
-        return VInt(cx.heap.get('card')(v.t))
+        return VInt(heap_of(v, cx).get('card')(v.t))
     raise SpecError('len of %r' % (v,))
 
   def hash_of(self, v, cx):
